@@ -6,9 +6,10 @@ import (
 	"github.com/hashicorp/eventlogger"
 )
 
-type qWriter struct{}
+// an ordinary, not internally synchronised writer (like bytes.Buffer): concurrent Writes conflict on its state
+type qWriter struct{ total int }
 
-func (w *qWriter) Write(p []byte) (int, error) { return len(p), nil }
+func (w *qWriter) Write(p []byte) (int, error) { w.total += len(p); return len(p), nil }
 
 func H_C19_writer_pairs() {
 	s := &Sink{Writer: &qWriter{}}
